@@ -267,6 +267,7 @@ def const_str_list(node):
 NP_VIEW = {"asarray", "asanyarray", "atleast_1d", "atleast_2d", "atleast_3d", "ravel", "reshape", "squeeze", "transpose",
            "swapaxes", "moveaxis", "real", "imag", "broadcast_to", "expand_dims", "ascontiguousarray", "asfarray"}
 NP_INPLACE_FIRST = {"copyto", "put", "place", "putmask", "fill_diagonal"}
+NP_COPY_FALSE_INPLACE = {"nan_to_num"}       # np.nan_to_num(x, copy=False) overwrites x
 ARR_VIEW_METHODS = {"reshape", "ravel", "view", "squeeze", "transpose", "swapaxes", "diagonal"}
 ARR_VIEW_ATTRS = {"T", "real", "imag", "flat", "A", "array", "mT"}
 ARR_INPLACE_METHODS = {"sort", "fill", "resize", "put", "itemset", "partition", "setfield", "byteswap"}
@@ -564,6 +565,9 @@ class _AliasWalker(Walker):
                 return EMPTY
             if "out" in kws:
                 return self.origins(kws["out"], st)
+            cp = kws.get("copy")
+            if np_name in NP_COPY_FALSE_INPLACE and cp is not None and isinstance(cp, ast.Constant) and cp.value is False:
+                return self.origins(args[0], st) if args else EMPTY
             return EMPTY
         # super().__new__(subtype, shape, dtype, buffer)
         if isinstance(f, ast.Attribute) and f.attr == "__new__" and isinstance(f.value, ast.Call) and isinstance(f.value.func, ast.Name) and f.value.func.id == "super":
@@ -822,6 +826,9 @@ class _AliasWalker(Walker):
                 self.write_through(kws["out"], node, "np.%s(..., out=)" % np_name, st)
             if np_name in NP_INPLACE_FIRST and node.args:
                 self.write_through(node.args[0], node, "np.%s" % np_name, st)
+            cp = kws.get("copy")
+            if np_name in NP_COPY_FALSE_INPLACE and node.args and cp is not None and isinstance(cp, ast.Constant) and cp.value is False:
+                self.write_through(node.args[0], node, "np.%s(..., copy=False)" % np_name, st)
             if np_name == "shuffle" and node.args:
                 self.write_through(node.args[0], node, "np.random.shuffle", st)
             return
